@@ -380,7 +380,7 @@ def replay(work, v, prop, path):
         cases = work.fresh("replay", ".ndjson")
         with open(cases, "w") as f:
             f.write(json.dumps(rp["case"]) + "\n")
-        trace = vf.drive(work, rp["family"], cases=cases)
+        trace = vf.drive(work, rp["family"], cases=cases, env=cli_env(work, 1) if rp.get("cli") else None)
         res = vf.tlc_trace(work, module, trace, cfg=write_cfg(work, module + ".cfg", invariants=["Done"]))
         acct(v, trace, res)
         return v.finish()
@@ -553,9 +553,17 @@ def dist_account(v, trace, res, prop):
             owner = "C08" if set(b["failing"]) <= {"returns"} else "C07"
         if owner != prop:
             continue
-        desc = {"op": e.get("what") or "DistMatrix", "failing": sorted(b["failing"]), "kind": e.get("kind", ""), "model": e["o"]["model"],
+        viacli = str(e.get("id", "")).endswith(":cli")
+        desc = {"op": ("Cli:" if viacli else "") + (e.get("what") or "DistMatrix"), "failing": sorted(b["failing"]), "kind": e.get("kind", ""), "model": e["o"]["model"],
                 "options": e["o"], "rows": [_s(r) for r in e["rows"]], "msg": e.get("msg", "")}
-        v.finding(desc, {"family": "dist", "event": {k: e.get(k) for k in ("t", "rows", "o", "r", "cpus", "what", "rel", "k", "perm", "faildist", "failseq")}})
+        v.finding(desc, {"family": "dist", "cli": viacli, "event": {k: e.get(k) for k in ("t", "rows", "o", "r", "cpus", "what", "rel", "k", "perm", "faildist", "failseq")}})
+
+
+def cli_env(work, every):
+    import cli as clilib
+    if not getattr(work, "goalign", None):
+        work.goalign = clilib.build_cli(work)
+    return {"VERIF_GOALIGN": work.goalign, "VERIF_CLI_EVERY": every}
 
 
 def _dist(prop):
@@ -568,7 +576,16 @@ def _dist(prop):
             if n == 0:
                 raise vf.ToolingError("Gen_Dist produced no case")
             v.add_mc(r, "gen:Dist")
-        trace = vf.drive(work, "dist", cases=cases, n=400 if tier == "quick" else 5000, seed=seed, tier=tier)
+        env = None
+        if prop == "C07":
+            # the command-line front: a sample of the cases is also asked of `goalign compute distance` (same judge)
+            env = cli_env(work, 12 if tier == "quick" else 2)
+        trace = vf.drive(work, "dist", cases=cases, n=400 if tier == "quick" else 5000, seed=seed, tier=tier, env=env, timeout=3000)
+        if env:
+            ncli = sum(1 for l in open(trace) if ':cli"' in l)
+            if ncli == 0:
+                raise vf.ToolingError("no distance case was asked of the command line")
+            v.notes.append("command-line front: %d matrices printed by `goalign compute distance` judged like the library's" % ncli)
         res = vf.tlc_trace(work, "Trace_Dist", trace, cfg=write_cfg(work, "Trace_Dist.cfg", invariants=["Done"]))
         dist_account(v, trace, res, prop)
         v.assumptions += ["TLC and the CommunityModules evaluate TLA+ correctly", "java.lang.Math log/pow are accurate to 1e-9 relative"]
@@ -748,7 +765,11 @@ def prot_account(v, trace, res):
 
 def _c17(work, v, tier, seed):
     vf.build_driver(work)
-    trace = vf.drive(work, "protdist", n=80 if tier == "quick" else 1500, seed=seed, tier=tier, timeout=3000)
+    trace = vf.drive(work, "protdist", n=80 if tier == "quick" else 1500, seed=seed, tier=tier, timeout=3000, env=cli_env(work, 1))
+    ncli = sum(1 for l in open(trace) if ':cli"' in l)
+    if ncli == 0:
+        raise vf.ToolingError("no protein distance case was asked of the command line")
+    v.notes.append("command-line front: %d matrices printed by `goalign compute distance` (protein models) judged like the library's" % ncli)
     res = vf.tlc_trace(work, "Trace_ProtDist", trace, cfg=write_cfg(work, "Trace_ProtDist.cfg", invariants=["Done"]), timeout=6000)
     prot_account(v, trace, res)
     v.assumptions += ["TLC and the CommunityModules evaluate TLA+ correctly", "java.lang.Math exp/log/pow accurate to 1e-12",
